@@ -16,6 +16,9 @@ use crate::{
 };
 
 pub const N_EP: u8 = 4;
+/// Per-connection queue depth used by the harness (public `Config::channel_capacity`): small, so
+/// that a stalled receiver overflows it within a short burst.
+pub const QUEUE_DEPTH: usize = 4;
 /// destination index that maps to an id nobody ever connects with
 pub const ABSENT: u8 = N_EP;
 
@@ -34,6 +37,12 @@ pub enum Op {
     /// a send whose destination's active connection has a stalled socket (flushes pending) for
     /// `stall_ms` of virtual time, below or above the relay's write timeout
     StalledSend { conn: u16, dst: u8, d: Dgram, stall_ms: u16 },
+    /// two connections of one endpoint whose connection ids are assigned in one order and which
+    /// are registered in the other (overlapping handshakes)
+    ConnectReordered { ep: u8 },
+    /// queue overflow: the destination's socket is stalled while `first` datagrams are sent to
+    /// it from one connection; it resumes, and `then` more datagrams follow at once
+    StalledBurst { conn: u16, dst: u8, first: u8, then: u8, stall_ms: u16 },
 }
 
 #[derive(Debug, Clone, Copy, PartialEq, Eq)]
@@ -70,9 +79,12 @@ pub fn op(focus: Focus) -> BoxedStrategy<Op> {
     let disc = (0u8..N_EP, proptest::option::weighted(0.7, any::<u16>())).prop_map(|(ep, which)| Op::Disconnect { ep, which });
     let stalled = (any::<u16>(), 0u8..N_EP, dgram(3000), prop_oneof![Just(300u16), Just(700), Just(1500), Just(2500)])
         .prop_map(|(conn, dst, d, stall_ms)| Op::StalledSend { conn, dst, d, stall_ms });
+    let reordered = prop_oneof![3 => Just(0u8), 1 => 1u8..N_EP].prop_map(|ep| Op::ConnectReordered { ep });
+    let stalled_burst = (any::<u16>(), 0u8..N_EP, 4u8..10, 1u8..5, prop_oneof![Just(200u16), Just(600)])
+        .prop_map(|(conn, dst, first, then, stall_ms)| Op::StalledBurst { conn, dst, first, then, stall_ms });
     match focus {
-        Focus::Forwarding => prop_oneof![4 => connect, 2 => close, 8 => send, 3 => burst, 1 => disc, 1 => Just(Op::ShutdownAll).prop_filter("rare", |_| true), 2 => stalled].boxed(),
-        Focus::Registry => prop_oneof![6 => connect0, 4 => close, 6 => send, 3 => disc, 1 => burst, 1 => stalled].boxed(),
+        Focus::Forwarding => prop_oneof![4 => connect, 2 => close, 8 => send, 3 => burst, 1 => disc, 1 => Just(Op::ShutdownAll).prop_filter("rare", |_| true), 2 => stalled, 1 => reordered, 2 => stalled_burst].boxed(),
+        Focus::Registry => prop_oneof![6 => connect0, 4 => close, 6 => send, 3 => disc, 1 => burst, 1 => stalled, 2 => reordered].boxed(),
     }
 }
 
@@ -129,6 +141,8 @@ pub struct Summary {
     pub gone_notice: bool,
     pub displaced: bool,
     pub stalled: bool,
+    pub reordered_ids: bool,
+    pub overflow: bool,
 }
 
 pub fn run_history(h: &History, focus: Focus, prop: &str) -> Outcome {
@@ -142,6 +156,9 @@ async fn run_history_async(h: &History, focus: Focus, prop: &str) -> Outcome {
         };
     }
     let relay = Relay::new();
+    // forwarding focus: shallow queues so that bursts overflow (drops are allowed there);
+    // registry focus asserts delivery and notices, which presuppose queue room
+    let depth = if focus == Focus::Forwarding { Some(QUEUE_DEPTH) } else { None };
     let mut conns: Vec<Conn> = vec![];
     // model
     let mut stack: BTreeMap<u8, Vec<usize>> = BTreeMap::new();
@@ -220,7 +237,7 @@ async fn run_history_async(h: &History, focus: Focus, prop: &str) -> Outcome {
             Op::Connect { ep, v2 } => {
                 let id = memrelay::pool_key(*ep).public();
                 let version = if *v2 { ProtocolVersion::V2 } else { ProtocolVersion::V1 };
-                let (end, cid) = relay.connect(id, version, None);
+                let (end, cid) = relay.connect(id, version, depth);
                 let idx = conns.len();
                 if conns.iter().any(|c| c.id == cid) {
                     fail!("connection-id-reused", "connection id {cid:?} reused");
@@ -325,6 +342,49 @@ async fn run_history_async(h: &History, focus: Focus, prop: &str) -> Outcome {
                         }
                     }
                     _ => do_send(&conns, c, *dst, d, &mut exp, &mut sent_to, &stack, &mut sum),
+                }
+            }
+            Op::ConnectReordered { ep } => {
+                let id = memrelay::pool_key(*ep).public();
+                // ids assigned x then y; registered y then x
+                let x = relay.prepare(id, ProtocolVersion::V2, depth);
+                let y = relay.prepare(id, ProtocolVersion::V2, depth);
+                for p in [y, x] {
+                    let (end, cid) = relay.register(p);
+                    let idx = conns.len();
+                    if conns.iter().any(|c| c.id == cid) {
+                        fail!("connection-id-reused", "connection id {cid:?} reused");
+                    }
+                    conns.push(Conn { ep: *ep, v2: true, end, id: cid, alive: true, dying: false });
+                    let st = stack.entry(*ep).or_default();
+                    if let Some(&old) = st.last() {
+                        exp.entry(old).or_default().push(Expect::Displaced);
+                        sum.displaced = true;
+                    }
+                    st.push(idx);
+                    sum.max_conns_one_ep = sum.max_conns_one_ep.max(st.len());
+                }
+                sum.reordered_ids = true;
+            }
+            Op::StalledBurst { conn, dst, first, then, stall_ms } => {
+                if conns.is_empty() { continue; }
+                let c = gens::pick(*conn, conns.len());
+                let top = stack.get(dst).and_then(|s| s.last()).copied();
+                if let (Some(top), true) = (top, conns[c].alive) {
+                    if top != c {
+                        let mk = |i: u8| Dgram { ecn: 0, seg: None, contents: Payload { len: 3 + i as usize, fill: i } };
+                        conns[top].end.set_flush_stalled(true);
+                        for i in 0..*first {
+                            do_send(&conns, c, *dst, &mk(i), &mut exp, &mut sent_to, &stack, &mut sum);
+                        }
+                        memrelay::settle().await;
+                        tokio::time::sleep(std::time::Duration::from_millis(*stall_ms as u64)).await;
+                        conns[top].end.set_flush_stalled(false);
+                        for i in 0..*then {
+                            do_send(&conns, c, *dst, &mk(100 + i), &mut exp, &mut sent_to, &stack, &mut sum);
+                        }
+                        sum.overflow = true;
+                    }
                 }
             }
             Op::ShutdownAll => {
@@ -437,6 +497,8 @@ async fn run_history_async(h: &History, focus: Focus, prop: &str) -> Outcome {
     if sum.max_conns_one_ep >= 3 { classes.push("3+conns-one-id"); }
     if sum.delivered > 0 { classes.push("delivered"); }
     if sum.stalled { classes.push("stalled-receiver"); }
+    if sum.reordered_ids { classes.push("ids-assigned-out-of-registration-order"); }
+    if sum.overflow { classes.push("queue-overflow-burst"); }
     let nontrivial = match focus {
         Focus::Forwarding => sum.dup_send && sum.delivered > 0,
         Focus::Registry => sum.max_conns_one_ep >= 3 && sum.promotion,
